@@ -289,11 +289,9 @@ Lemma rinv_of S st e : einv X (rowned st) [] (rcaller st) e -> rshape S st (wh (
 Proof. intros A [B C D E F]. split; assumption. Qed.
 
 Lemma rshape_frame S st h h' :
-  rshape S st h -> same_on (rowned st ++ rcaller st) h h' -> lens_pres h h' ->
-  (forall b, In b (rowned st ++ rcaller st) -> (b < length h)%nat) ->
-  rshape S st h'.
+  rshape S st h -> same_on (rowned st ++ rcaller st) h h' -> rshape S st h'.
 Proof.
-  intros [IS Ib Ip Il Ic] Hs [_ Hl] Hvalid.
+  intros [IS Ib Ip Il Ic] Hs.
   assert (Hcur : forall s, rbuf st = Some s -> In (sblk s) (rowned st ++ rcaller st)).
   { intros s Hb. rewrite Hb in Ib. rewrite !in_app_iff. destruct (rro st) eqn:Er.
     - right. tauto.
@@ -324,7 +322,7 @@ Proof.
   cbn [app] in A2, A4.
   assert (Hrow : rowned (set_buf st (Some (mkS b 0 0 (pow2ceil m))) false (rpend st)) = b :: rowned st).
   { unfold rowned, set_buf. cbn [rbuf rro rpend sblk]. rewrite Hb. reflexivity. }
-  pose proof (rshape_frame _ _ _ _ (rinv_shape _ _ _ Hi) A4 A5 (fun x => rinv_valid _ _ _ x Hi)) as [IS Ib Ip Il Ic].
+  pose proof (rshape_frame _ _ _ _ (rinv_shape _ _ _ Hi) A4) as [IS Ib Ip Il Ic].
   rewrite Hb in Ib, Ic.
   apply rinv_of; [rewrite Hrow; exact A1|].
   split; cbn [set_buf rsrc rbuf rri rro rpend rlive rcur rcaller sblk soff sln scp]; try assumption.
@@ -360,7 +358,7 @@ Proof.
   intros Hi Hb ncap e' nb Em pd cn.
   destruct (einv_malloc _ _ _ _ _ _ _ (rv_e _ _ _ Hi) Em) as (A1 & A2 & A3 & [A4 A5]).
   cbn [app] in A2, A4.
-  pose proof (rshape_frame _ _ _ _ (rinv_shape _ _ _ Hi) A4 A5 (fun x => rinv_valid _ _ _ x Hi)) as [IS Ib Ip Il Ic].
+  pose proof (rshape_frame _ _ _ _ (rinv_shape _ _ _ Hi) A4) as [IS Ib Ip Il Ic].
   rewrite Hb in Ib, Ic. destruct Ib as (B1 & B2 & B0 & B3 & B4). destruct Ic as [C1 C2].
   assert (Hcur : In (sblk s) (rowned st ++ rcaller st)).
   { rewrite in_app_iff. destruct (rro st) eqn:Er; [right; tauto|left; now apply In_rowned_cur]. }
